@@ -13,6 +13,8 @@ package hclwrite
 // verif:ghostfield nodes.members set
 // Ghost position, strictly increasing along the after links (rules out cycles).
 // verif:ghostfield node.pos int
+// Ghost owner of a child list: the content object whose inTree holds it (separation).
+// verif:ghostfield nodes.owner ref
 
 // WF(ns): the doubly linked list is consistent with its member set.
 // verif:pred WF(ns *nodes) = (ns.first == nil <==> ns.last == nil) && (ns.first != nil ==> in(ns.first, ns.members) && ns.first.before == nil) && (ns.last != nil ==> in(ns.last, ns.members) && ns.last.after == nil) && (forall r ref :: { in(r, ns.members) } in(r, ns.members) ==> r != nil && allocated(r)) && (forall m *node :: { in(m, ns.members) } in(m, ns.members) ==> m.list == ns && (m.after != nil ==> m.pos < m.after.pos) && (m.before == nil ==> ns.first == m) && (m.after == nil ==> ns.last == m) && (m.before != nil ==> in(m.before, ns.members) && m.before.after == m) && (m.after != nil ==> in(m.after, ns.members) && m.after.before == m))
@@ -99,7 +101,7 @@ package hclwrite
 // ---- Body ----
 
 // InvBody(b): the body's item set only contains nodes linked into its child list.
-// verif:pred InvBody(b *Body) = b.children != nil && WF(b.children) && b.items != nil && (forall r ref :: { has(b.items, r) } has(b.items, r) ==> r != nil && allocated(r)) && (forall k *node :: { has(b.items, k) } has(b.items, k) ==> in(k, b.children.members))
+// verif:pred InvBody(b *Body) = b.children != nil && b.children.owner == b && WF(b.children) && b.items != nil && (forall r ref :: { has(b.items, r) } has(b.items, r) ==> r != nil && allocated(r)) && (forall k *node :: { has(b.items, k) } has(b.items, k) ==> in(k, b.children.members))
 
 // verif:func newInTree
 //@ assigns nothing
@@ -107,6 +109,7 @@ package hclwrite
 
 // verif:func newBody
 //@ assigns nothing
+//@ ghost ret.children.owner = ret
 //@ ensures fresh(ret) && ret != nil && InvBody(ret) && (forall k ref :: !has(ret.items, k)) && fresh(ret.children) && emptyTree(ret.children) && fresh(ret.items) && ret.parent == nil
 
 // verif:func (*Body).appendItem
@@ -167,14 +170,15 @@ package hclwrite
 // InvAttr(a): the attribute's cached handles are attached to its own child list,
 // name and expression are interior nodes (so ReplaceWith may be applied to them),
 // and they hold an identifier and an expression.
-// verif:pred InvAttr(a *Attribute) = a.children != nil && WF(a.children) && handle(a.leadComments, a.children) && handle(a.name, a.children) && interior(a.name) && handle(a.expr, a.children) && interior(a.expr) && handle(a.lineComments, a.children) && a.leadComments != a.name && a.leadComments != a.expr && a.lineComments != a.name && a.lineComments != a.expr && a.leadComments != a.lineComments && typeis(a.name.content, ptr(identifier)) && unbox(a.name.content, ptr(identifier)) != nil && unbox(a.name.content, ptr(identifier)).token != nil && typeis(a.expr.content, ptr(Expression))
+// verif:pred InvAttr(a *Attribute) = a.children != nil && a.children.owner == a && WF(a.children) && handle(a.leadComments, a.children) && handle(a.name, a.children) && interior(a.name) && handle(a.expr, a.children) && interior(a.expr) && handle(a.lineComments, a.children) && a.leadComments != a.name && a.leadComments != a.expr && a.lineComments != a.name && a.lineComments != a.expr && a.leadComments != a.lineComments && typeis(a.name.content, ptr(identifier)) && unbox(a.name.content, ptr(identifier)) != nil && unbox(a.name.content, ptr(identifier)).token != nil && typeis(a.expr.content, ptr(Expression))
 
 // verif:func newAttribute
 //@ assigns nothing
-//@ ensures fresh(ret) && ret != nil && fresh(ret.children) && emptyTree(ret.children) && ret.parent == nil && ret.name == nil && ret.expr == nil
+//@ ghost ret.children.owner = ret
+//@ ensures fresh(ret) && ret != nil && fresh(ret.children) && emptyTree(ret.children) && ret.children.owner == ret && ret.parent == nil && ret.name == nil && ret.expr == nil
 
 // verif:func (*Attribute).init
-//@ requires emptyTree(a.children) && expr != nil && expr.parent == nil
+//@ requires emptyTree(a.children) && a.children.owner == a && expr != nil && expr.parent == nil
 //@ assigns a.leadComments, a.name, a.expr, a.lineComments, a.children.first, a.children.last, a.children.members
 //@ ensures inv: InvAttr(a)
 //@ ensures expr: unbox(a.expr.content, ptr(Expression)) == expr
@@ -213,14 +217,15 @@ package hclwrite
 //@ ensures fresh(ret) && ret != nil && InvLabels(ret) && fresh(ret.children) && fresh(ret.items) && ret.parent == nil
 
 // InvBlock(b): cached handles attached; the type name is an interior identifier node.
-// verif:pred InvBlock(b *Block) = b.children != nil && WF(b.children) && handle(b.leadComments, b.children) && handle(b.typeName, b.children) && interior(b.typeName) && handle(b.labels, b.children) && handle(b.open, b.children) && handle(b.body, b.children) && handle(b.close, b.children) && b.typeName != b.leadComments && b.typeName != b.labels && b.typeName != b.open && b.typeName != b.body && b.typeName != b.close && typeis(b.typeName.content, ptr(identifier)) && unbox(b.typeName.content, ptr(identifier)) != nil && unbox(b.typeName.content, ptr(identifier)).token != nil && typeis(b.labels.content, ptr(blockLabels)) && unbox(b.labels.content, ptr(blockLabels)) != nil && typeis(b.body.content, ptr(Body)) && unbox(b.body.content, ptr(Body)) != nil && unbox(b.labels.content, ptr(blockLabels)).children != b.children && unbox(b.body.content, ptr(Body)).children != b.children
+// verif:pred InvBlock(b *Block) = b.children != nil && b.children.owner == b && WF(b.children) && handle(b.leadComments, b.children) && handle(b.typeName, b.children) && interior(b.typeName) && handle(b.labels, b.children) && handle(b.open, b.children) && handle(b.body, b.children) && handle(b.close, b.children) && b.typeName != b.leadComments && b.typeName != b.labels && b.typeName != b.open && b.typeName != b.body && b.typeName != b.close && typeis(b.typeName.content, ptr(identifier)) && unbox(b.typeName.content, ptr(identifier)) != nil && unbox(b.typeName.content, ptr(identifier)).token != nil && typeis(b.labels.content, ptr(blockLabels)) && unbox(b.labels.content, ptr(blockLabels)) != nil && typeis(b.body.content, ptr(Body)) && unbox(b.body.content, ptr(Body)) != nil && unbox(b.labels.content, ptr(blockLabels)).children != b.children && unbox(b.body.content, ptr(Body)).children != b.children
 
 // verif:func newBlock
 //@ assigns nothing
-//@ ensures fresh(ret) && ret != nil && fresh(ret.children) && emptyTree(ret.children) && ret.parent == nil
+//@ ghost ret.children.owner = ret
+//@ ensures fresh(ret) && ret != nil && fresh(ret.children) && emptyTree(ret.children) && ret.children.owner == ret && ret.parent == nil
 
 // verif:func (*Block).init
-//@ requires emptyTree(b.children)
+//@ requires emptyTree(b.children) && b.children.owner == b
 //@ assigns b.leadComments, b.typeName, b.labels, b.open, b.body, b.close, b.children.first, b.children.last, b.children.members
 //@ ensures inv: InvBlock(b)
 //@ ensures body: InvBody(unbox(b.body.content, ptr(Body)))
@@ -251,3 +256,91 @@ package hclwrite
 //@ ensures lbl: InvLabels(unbox(b.labels.content, ptr(blockLabels)))
 //@ ensures wf: WF(b.children)
 //@ ensures inv: InvBlock(b)
+
+// ---- Body operations on attributes and blocks ----
+
+// InvItems(b): every attribute item of the body satisfies the attribute invariant.
+// verif:pred InvItems(b *Body) = forall k *node :: { has(b.items, k) } has(b.items, k) && typeis(k.content, ptr(Attribute)) ==> unbox(k.content, ptr(Attribute)) != nil && InvAttr(unbox(k.content, ptr(Attribute)))
+
+// verif:func (*identifier).hasName
+//@ requires i.token != nil
+//@ pure
+
+// verif:func (*Body).GetAttribute
+//@ requires InvBody(b) && InvItems(b)
+//@ pure
+//@ ensures ret != nil ==> InvAttr(ret)
+
+// verif:func (*Body).getAttributeNode
+//@ requires InvBody(b) && InvItems(b)
+//@ pure
+//@ ensures ret != nil ==> has(b.items, ret) && typeis(ret.content, ptr(Attribute))
+
+// verif:func (*Body).RemoveAttribute
+//@ requires InvBody(b) && InvItems(b)
+//@ assigns allof(node.list), allof(node.before), allof(node.after), b.children.first, b.children.last, b.children.members, mapof(b.items)
+//@ ensures inv: InvBody(b)
+//@ ensures gone: ret != nil ==> (exists k *node :: old(has(b.items, k)) && !has(b.items, k) && k.content == old(k.content) && unbox(k.content, ptr(Attribute)) == ret && detached(k))
+
+// verif:func (*Body).RemoveBlock
+//@ requires InvBody(b)
+//@ assigns allof(node.list), allof(node.before), allof(node.after), b.children.first, b.children.last, b.children.members, mapof(b.items)
+//@ ensures inv: InvBody(b)
+
+// verif:func (*Body).appendItemNode
+//@ requires InvBody(b) && nn != nil && detached(nn)
+//@ assigns b.children.first, b.children.last, b.children.last.after, nn.before, nn.list, nn.pos, b.children.members, mapof(b.items)
+//@ ensures new: ret == nn && has(b.items, nn) && in(nn, b.children.members) && nn.list == b.children && b.children.last == nn
+//@ ensures inv: InvBody(b)
+
+// verif:func (*Body).AppendBlock
+//@ requires InvBody(b)
+//@ assigns b.children.first, b.children.last, b.children.last.after, b.children.members, mapof(b.items)
+//@ ensures inv: InvBody(b) && ret == block
+
+// verif:func (*Body).AppendNewBlock
+//@ requires InvBody(b)
+//@ assigns b.children.first, b.children.last, b.children.last.after, b.children.members, mapof(b.items)
+//@ ensures inv: InvBody(b) && fresh(ret) && ret != nil && InvBlock(ret)
+
+// Assumed: the expression constructors return a fresh, unattached expression
+// and write nothing that existed before (ast_expression.go is not under contract).
+// verif:func NewExpressionLiteral
+//@ trusted
+//@ assigns nothing
+//@ ensures fresh(ret) && ret != nil && ret.parent == nil
+// verif:func NewExpressionRaw
+//@ trusted
+//@ assigns nothing
+//@ ensures fresh(ret) && ret != nil && ret.parent == nil
+// verif:func NewExpressionAbsTraversal
+//@ trusted
+//@ assigns nothing
+//@ ensures fresh(ret) && ret != nil && ret.parent == nil
+
+// verif:func (*Body).SetAttributeValue
+//@ requires InvBody(b) && InvItems(b)
+//@ assigns allof(node.list), allof(node.before), allof(node.after), allof(nodes.members), allof(node.pos), allof(Attribute.expr), b.children.first, b.children.last, mapof(b.items)
+//@ ensures inv: InvBody(b)
+//@ ensures attr: ret != nil ==> InvAttr(ret)
+
+// verif:func (*Body).SetAttributeRaw
+//@ requires InvBody(b) && InvItems(b)
+//@ assigns allof(node.list), allof(node.before), allof(node.after), allof(nodes.members), allof(node.pos), allof(Attribute.expr), b.children.first, b.children.last, mapof(b.items)
+//@ ensures inv: InvBody(b)
+//@ ensures attr: ret != nil ==> InvAttr(ret)
+
+// verif:func (*Body).SetAttributeTraversal
+//@ requires InvBody(b) && InvItems(b)
+//@ assigns allof(node.list), allof(node.before), allof(node.after), allof(nodes.members), allof(node.pos), allof(Attribute.expr), b.children.first, b.children.last, mapof(b.items)
+//@ ensures inv: InvBody(b)
+//@ ensures attr: ret != nil ==> InvAttr(ret)
+
+// verif:func (*Body).RenameAttribute
+//@ requires InvBody(b) && InvItems(b)
+//@ assigns allof(node.list), allof(node.before), allof(node.after), allof(nodes.members), allof(node.pos), allof(Attribute.name)
+//@ ensures inv: InvBody(b)
+
+// verif:func NewEmptyFile
+//@ assigns nothing
+//@ ensures fresh(ret) && ret != nil && ret.children != nil && WF(ret.children) && handle(ret.body, ret.children) && typeis(ret.body.content, ptr(Body)) && unbox(ret.body.content, ptr(Body)) != nil && InvBody(unbox(ret.body.content, ptr(Body)))
